@@ -46,6 +46,25 @@ def extra(tier, rng, workdir):
     vf, vn = txflow.vouch_failures(workdir)
     failures += vf
     vcases = [None] * vn
+    # "cannot stall syncing": an untrusted peer that has stopped reading its socket (its outgoing channel is full) while its
+    # connection's periodic check has transactions to ask for again: that check blocks in the transmit - and the trusted
+    # peer's next block, whose clean-up visits every tracker, must still be processed
+    scases = []
+    for nconn, who, pre in ((3, 2, [["inv", 1, 1], ["inv", 2, 1], ["inv", 2, 1]]),
+                            (3, 1, [["inv", 2, 1], ["inv", 1, 1], ["inv", 1, 2], ["inv", 2, 2], ["inv", 1, 2]]),
+                            (2, 1, [["inv", 0, 1], ["inv", 1, 1]])):
+        scases.append({"cfg": {"nconn": nconn, "txs": [[1, [9010], 0], [2, [9020], 0], [3, [9030], 0]]},
+                       "ops": pre + [["advance", 3500], ["stall_confirm", who, [3]], ["tracked", who], ["confirm", [1]], ["tracked", who]]})
+    sres, _ = vlib.run_harness("tracker", scases, workdir, tag="stall", timeout=300)
+    for c, tr in zip(scases, sres):
+        i = next(k for k, o in enumerate(c["ops"]) if o[0] == "stall_confirm")
+        ob = tr[i]
+        if list(ob[:1]) != [0] or (len(ob) > 2 and ob[2] != 1):
+            failures.append({"suite": "stall", "checker": "stall", "step": i, "cfg": c["cfg"], "ops": c["ops"], "trace": tr,
+                             "expected": [323], "observed": list(ob),
+                             "what": "an untrusted peer that does not read its socket stalls the processing of the trusted peer's block: its "
+                                     "connection's tracker check blocks in the transmit holding the tracker, the block's clean-up waits for it"})
+    vcases += [None] * len(scases)
     # "cannot stall syncing": an untrusted peer's double spend arriving while the trusted peer's block is inside
     # ProcessBlock (pause point in the announcement): both threads must finish.  From the pipeline's race replays only
     # the ones in which the injected tx comes from the untrusted peer count here.
